@@ -362,7 +362,7 @@ pub fn run_c05(tier: Tier) -> ! {
                         p.diag_buf = None;
                     }
                 }
-                let mal: Vec<u8> = if n <= 1 { (0..23).collect() } else { vec![0, 1, 2, 5, 7, 8, 12, 16, 18, 20] };
+                let mal: Vec<u8> = if n <= 1 { (0..26).collect() } else { vec![0, 1, 2, 5, 7, 8, 12, 16, 18, 20, 23] };
                 let mut acts = w4props::std_acts(n as u8, &mal, true);
                 acts.push(w4::Act::ExtDiag);
                 acts.push(w4::Act::LongPause);
